@@ -27,14 +27,14 @@ T(k, o, c) == Mk(k, o, c)
 (* ---- leaf alphabets ----------------------------------------------------------------------- *)
 Wraps == {"space", "any", "clip", "ellipsis"}
 Aligns == {"left", "center", "right"}
-TextIdsFull == {"empty", "a", "ab", "ascii", "long", "nl", "sp", "cjk", "cjk1", "acjk", "comb", "comb0", "dec", "mixed", "mk1", "mk2"}
+TextIdsFull == {"empty", "a", "ab", "ascii", "long", "nl", "nlw", "nlwb", "nlz", "sp", "cjk", "cjk1", "acjk", "comb", "comb0", "dec", "mixed", "mk1", "mk2"}
 TextLeavesFull == {T("Text", <<x, w, a, b>>, <<>>) : x \in TextIdsFull, w \in Wraps, a \in Aligns, b \in {0, 1}}
 EditLeavesFull == {T("Edit", <<cap, x, ml, pos, a, w>>, <<>>) :
                      cap \in {"empty", "ab", "cjk1"}, x \in {"empty", "ascii", "nl", "acjk", "comb", "long"}, ml \in {0, 1},
                      pos \in {"start", "mid", "end"}, a \in {"left", "right"}, w \in {"space", "any", "clip"}}
 WimpLeavesFull == {T("Button", <<x>>, <<>>) : x \in {"empty", "ab", "ascii", "cjk", "comb", "nl"}}
                   \cup {T(k, <<x, s>>, <<>>) : k \in {"CheckBox", "RadioButton"}, x \in {"empty", "ab", "cjk", "long", "mixed"}, s \in {0, 1}}
-                  \cup {T("SelectableIcon", <<x, p>>, <<>>) : x \in {"empty", "ab", "cjk", "nl", "comb"}, p \in {0, 1, 3}}
+                  \cup {T("SelectableIcon", <<x, p>>, <<>>) : x \in {"empty", "ab", "cjk", "nl", "nlw", "comb"}, p \in {0, 1, 3}}
 MiscLeavesFull == {T("Divider", <<ch, tp, bt>>, <<>>) : ch \in {"sp", "dash", "line"}, tp \in {0, 1}, bt \in {0, 2}}
                   \cup {T("SolidFill", <<ch>>, <<>>) : ch \in {"sp", "dash", "line"}}
                   \cup {T("BigText", <<x, f>>, <<>>) : x \in {"1", "12", "0:9"}, f \in {"thin3", "half54", "thin43"}}
@@ -57,6 +57,7 @@ LeavesRep == {T("Text", <<"ascii", "space", "left", 0>>, <<>>), T("Text", <<"cjk
               T("Probe", <<1, "box", 1, 1, 1, "all">>, <<>>), T("Probe", <<2, "flow", 3, 2, 1, "even">>, <<>>),
               T("Probe", <<3, "fixed", 3, 2, 1, "norow0">>, <<>>)}
 LeavesTiny == {T("Text", <<"ascii", "space", "left", 0>>, <<>>), T("Text", <<"cjk", "any", "center", 0>>, <<>>),
+               T("Text", <<"nlw", "space", "left", 0>>, <<>>),
                T("Edit", <<"ab", "ascii", 0, "end", "left", "space">>, <<>>), T("SolidFill", <<"line">>, <<>>),
                T("BigText", <<"12", "thin3">>, <<>>), T("Probe", <<2, "flow", 3, 2, 1, "even">>, <<>>)}
 Leaves == CASE LeafSet = "full" -> LeavesFull
@@ -106,7 +107,7 @@ ColItemOpts == CASE Profile = "full" -> {<<"pack", 0, 0>>, <<"given", 2, 0>>, <<
 Focuses(k) == IF Profile # "full" THEN {-1} ELSE {-1} \cup (IF k > 1 THEN {k - 1} ELSE {})
 ContOpts(K, k) ==
   CASE K = "Pile" -> {<<f, io>> : f \in Focuses(k), io \in [1..k -> PileItemOpts]}
-    [] K = "Columns" -> {<<dc, mw, f, io>> : dc \in (CASE Profile = "tiny" -> {1} [] Profile = "rep" -> {0, 1} [] OTHER -> {0, 1, 2}), mw \in (IF Profile = "full" THEN {1, 2} ELSE {1}),
+    [] K = "Columns" -> {<<dc, mw, f, io>> : dc \in (CASE Profile = "tiny" -> (IF Kinds = "geom" THEN {0, 1} ELSE {1}) [] Profile = "rep" -> {0, 1} [] OTHER -> {0, 1, 2}), mw \in (IF Profile = "full" THEN {1, 2} ELSE {1}),
                                              f \in Focuses(k), io \in [1..k -> ColItemOpts]}
     [] K = "Frame" -> {<<h, f, fp>> \in {0, 1} \X {0, 1} \X {"body", "header", "footer"} :
                          /\ 1 + h + f = k /\ (fp = "header" => h = 1) /\ (fp = "footer" => f = 1) /\ (Profile = "tiny" => fp = "body")}
